@@ -2,6 +2,7 @@ package sqlsim
 
 import (
 	"fmt"
+	"regexp"
 	"sort"
 	"strconv"
 	"strings"
@@ -648,6 +649,15 @@ func checkC21(env *kernel.Env) {
 		// a second clause in the same ALTER TABLE statement, generated against the
 		// table as the first clause leaves it; the statement succeeds or fails as a whole
 		combinable := map[string]bool{"add-column": true, "drop-column": true, "add-index": true, "drop-index": true}
+		// clauses that retype or rename a column are combined too, with a second clause
+		// that names none of the columns / indexes the first one names (so that "as the
+		// first clause leaves it" and MySQL's "as the statement found it" agree)
+		colChange := map[string]bool{"modify-column": true, "change-column": true, "rename-column": true}
+		if !env.Avoid("multi-clause-column-change") {
+			for k := range colChange {
+				combinable[k] = true
+			}
+		}
 		if wantErr == "" && combinable[op.kind] && T.Bool(1, 3) {
 			cur := *m
 			*m = *next.clone()
@@ -659,7 +669,12 @@ func checkC21(env *kernel.Env) {
 				added = f[5]
 			}
 			prefix := "ALTER TABLE " + m.name + " "
-			if combinable[op2.kind] && strings.HasPrefix(op2.sql, prefix) && (added == "" || !strings.Contains(op2.sql+" ", " "+added+" ") && !strings.Contains(op2.sql, "("+added+")")) {
+			if combinable[op2.kind] && strings.HasPrefix(op2.sql, prefix) && (added == "" || !strings.Contains(op2.sql+" ", " "+added+" ") && !strings.Contains(op2.sql, "("+added+")")) &&
+				(!(colChange[op.kind] || colChange[op2.kind]) || c21Disjoint(strings.TrimPrefix(op.sql, prefix), strings.TrimPrefix(op2.sql, prefix))) {
+				if colChange[op.kind] || colChange[op2.kind] {
+					env.ClassPrefix = "multi-clause-column-change/"
+					env.Probe("multi-clause-column-change")
+				}
 				probe := next.clone()
 				// an index created in the same statement as a column-moving clause belongs to
 				// the schema-change-with-secondary-index family
@@ -784,6 +799,22 @@ func checkC21(env *kernel.Env) {
 		}
 		env.Nontrivial()
 	}
+}
+
+var c21NameRe = regexp.MustCompile(`\b(id|[chrCHR][0-9]+|[iIrR]x[0-9]+)\b`)
+
+// c21Disjoint: the two clauses name no column or index in common.
+func c21Disjoint(a, b string) bool {
+	seen := map[string]bool{}
+	for _, n := range c21NameRe.FindAllString(a, -1) {
+		seen[strings.ToLower(n)] = true
+	}
+	for _, n := range c21NameRe.FindAllString(b, -1) {
+		if seen[strings.ToLower(n)] {
+			return false
+		}
+	}
+	return true
 }
 
 // c21Safe: operations that neither move, retype nor rename columns of a table.
